@@ -588,10 +588,23 @@ func firstIllegalPartition(all []rec) string {
 var wholePaths = []string{"a", "a/b", "a/c", "a/b/d", "e", "e/f", "e/g", "h"}
 var wholeQueries = []string{"", "*", "a", "a/*", "*/b", "e", "a/b", "*/*/*", "e/*", "a/b/*"}
 
+// rootPaths: the whole-tree alphabet with the root itself (the empty path) as a
+// frequent member. A leaf at the root conflicts with every other path, so a
+// history of a few operations keeps returning to the empty tree, where an Add at
+// the root races Adds that turn the root into a branch.
+var rootPaths = []string{"", "", "", "a", "a/b", "e/f", "h", "a/c"}
+
 func wholeTrial(r *vlib.Run, trial int, rng *rand.Rand) bool {
+	return wholeTrialP(r, "whole", trial, rng, wholePaths, 4+rng.Intn(8))
+}
+
+func rootTrial(r *vlib.Run, mode string, trial int, rng *rand.Rand) bool {
+	return wholeTrialP(r, mode, trial, rng, rootPaths, 1+rng.Intn(4))
+}
+
+func wholeTrialP(r *vlib.Run, mode string, trial int, rng *rand.Rand, wholePaths []string, nops int) bool {
 	t := &ctree.Tree{}
 	G := 2 + rng.Intn(3)
-	nops := 4 + rng.Intn(8)
 	recs := make([][]rec, G)
 	qrecs := make([][]qrec, G)
 	var valCtr int64
@@ -699,7 +712,7 @@ func wholeTrial(r *vlib.Run, trial int, rng *rand.Rand) bool {
 	}
 	ok, dump := runWorkers(fs)
 	if !ok {
-		stuckVerdict(r, "whole", trial, dump)
+		stuckVerdict(r, mode, trial, dump)
 		return false
 	}
 	var all []rec
@@ -709,7 +722,12 @@ func wholeTrial(r *vlib.Run, trial int, rng *rand.Rand) bool {
 	sort.Slice(all, func(i, j int) bool { return all[i].Call < all[j].Call })
 	writes := append([]rec{}, all...)
 	// Quiescent reads.
+	seenPath := map[string]bool{}
 	for _, p := range wholePaths {
+		if seenPath[p] {
+			continue
+		}
+		seenPath[p] = true
 		o := rec{Client: G, In: in{"read", p, 0}}
 		o.Call = tick()
 		v := t.GetLeafValue(split(p))
@@ -725,21 +743,21 @@ func wholeTrial(r *vlib.Run, trial int, rng *rand.Rand) bool {
 	for _, o := range all {
 		hist = append(hist, porcupine.Operation{ClientId: o.Client, Input: o.In, Output: o.Out, Call: o.Call, Return: o.Ret})
 		fmt.Fprintf(&sigb, "%d%s%s,", o.Client, o.In.Kind, o.In.Path)
-		r.Count("whole_ops_"+o.In.Kind, 1)
+		r.Count(strings.TrimRight(mode, "0123456789")+"_ops_"+o.In.Kind, 1)
 	}
 	res, _ := porcupine.CheckOperationsVerbose(wholeModel, hist, 60*time.Second)
 	r.Eval(1)
 	switch res {
 	case porcupine.Ok:
 		r.Count("porcupine_whole_ok", 1)
-		r.Distinct(vlib.Hash("whole", sigb.String()))
+		r.Distinct(vlib.Hash(mode, sigb.String()))
 	case porcupine.Illegal:
 		r.Count("porcupine_whole_illegal", 1)
 		var s []string
 		for _, o := range all {
 			s = append(s, o.String())
 		}
-		r.Violation("whole", trial, "not-linearizable-whole-tree", "history with prefix conflicts / subtree deletes is not linearizable against the prefix-free map model: "+strings.Join(s, " "), map[string]interface{}{"history": s})
+		r.Violation(mode, trial, "not-linearizable-whole-tree", "history with prefix conflicts / subtree deletes is not linearizable against the prefix-free map model: "+strings.Join(s, " "), map[string]interface{}{"history": s})
 	default:
 		r.Count("porcupine_whole_unknown", 1)
 		r.Inconclusive("porcupine timed out on a whole-tree history")
@@ -752,7 +770,7 @@ func wholeTrial(r *vlib.Run, trial int, rng *rand.Rand) bool {
 				for _, o := range writes {
 					s = append(s, o.String())
 				}
-				r.Violation("whole", trial, sig, what+"; writes: "+strings.Join(s, " "), map[string]interface{}{"query": q, "writes": s})
+				r.Violation(mode, trial, sig, what+"; writes: "+strings.Join(s, " "), map[string]interface{}{"query": q, "writes": s})
 			}
 		}
 	}
@@ -761,7 +779,7 @@ func wholeTrial(r *vlib.Run, trial int, rng *rand.Rand) bool {
 		for _, o := range all {
 			s = append(s, o.String())
 		}
-		r.Sample(map[string]interface{}{"mode": "whole", "trial": trial, "history": s})
+		r.Sample(map[string]interface{}{"mode": mode, "trial": trial, "history": s})
 	}
 	return true
 }
@@ -888,6 +906,16 @@ func body(r *vlib.Run) {
 			alive = wholeTrial(r, trial, rng)
 		}
 	})
+	for _, procs := range []int{16, 4, 2} {
+		runtime.GOMAXPROCS(procs)
+		mode := fmt.Sprintf("wholeroot%d", procs)
+		r.ForTrials(mode, r.N(12000, 300000), func(trial int, rng *rand.Rand) {
+			if alive {
+				alive = rootTrial(r, mode, trial, rng)
+			}
+		})
+	}
+	runtime.GOMAXPROCS(16)
 }
 
 func main() {
